@@ -3,6 +3,7 @@
 cd "$(dirname "$0")" || exit 2
 tier=${1:-quick}
 rc=0
+mkdir -p out
 for p in $(python3 -c "import json;print(' '.join(c['property_id'] for c in json.load(open('MANIFEST.json'))['checks']))"); do
     ./check $p --tier $tier > out/check_$p.log 2>&1
     r=$?
